@@ -101,7 +101,7 @@ def ensure_facts(repo=REPO):
     os.makedirs(CACHE, exist_ok=True)
     h = tree_hash(repo)
     d = os.path.join(CACHE, h)
-    lock = open(os.path.join(CACHE, ".lock"), "w")
+    lock = open(os.path.join(CACHE, ".lock-" + h), "w")
     fcntl.flock(lock, fcntl.LOCK_EX)
     try:
         if os.path.exists(os.path.join(d, ".complete")):
@@ -121,8 +121,14 @@ def ensure_facts(repo=REPO):
         ents = [os.path.join(CACHE, e) for e in os.listdir(CACHE) if not e.startswith(".")]
         ents = [e for e in ents if os.path.isdir(e)]
         ents.sort(key=lambda e: os.path.getmtime(e), reverse=True)
-        for e in ents[6:]:
+        for e in ents[16:]:
             shutil.rmtree(e, ignore_errors=True)
+        for lf in os.listdir(CACHE):
+            if lf.startswith(".lock-") and lf[6:] not in [os.path.basename(e) for e in ents[:16]] and lf[6:] != h:
+                try:
+                    os.unlink(os.path.join(CACHE, lf))
+                except OSError:
+                    pass
         return d, h, time.time() - t0
     finally:
         fcntl.flock(lock, fcntl.LOCK_UN)
